@@ -1028,6 +1028,24 @@ class C19(Prop):
                               if late:
                                   out.append(Violation("halt_runs_nothing_further", f"no callback after stage {i}",
                                                        f"{late}", idx))
+                  # 2a. the same judged by what happened, not by the status the code reports: with halt-on-failure nothing of a
+                  # later stage runs after a gate that did not answer true, nor after a REQUIRED stage (as the protocol line
+                  # declares it) whose processor raised and was not recovered (no handler, or one that raises too)
+                  if halt:
+                      for j, ev in enumerate(log):
+                          if ev.startswith("o"):
+                              continue
+                          i = stage_of(ev)
+                          closed = ev.startswith("cp") and not ev.endswith(":t")
+                          failed = (ev.startswith("p") and i < len(beh) and beh[i][1] in ("raise", "raise0") and beh[i][3]
+                                    and beh[i][2] in ("none", "raise", "raise0"))
+                          if closed or failed:
+                              late = [e for e in log[j + 1:] if stage_of(e) > i]
+                              if late:
+                                  out.append(Violation("halt_runs_nothing_further",
+                                                       f"no callback after stage {i} ({'gate closed' if closed else 'required stage failed'})",
+                                                       f"{late}", idx))
+                                  break
                   # 2b. the observer is shown a stage only if its processor ran and it has a COMPLETED result
                   if len(f) > 8:
                       for j in [x for x in f[8][1:-1].split(",") if x]:
